@@ -2,9 +2,9 @@
    admissible mutator call; by induction it holds after any operation sequence, the payload read back is the one
    most recently set, and the final bundle validates and round-trips through CBOR. *)
 From Coq Require Import Sorting.Sorted.
-From BP7 Require Import Base.Prelude Gen.Consts Model.Types Model.Encode Model.Decode Model.Wf Model.Validate Model.Ops
+From BP7 Require Import Base.Prelude Gen.Consts Model.Types Model.Encode Model.Decode Model.Wf Model.WfExt Model.Validate Model.Ops
   Model.DtnTime Model.OpSeq Spec.Rules.
-From BP7 Require Import Proofs.CodecProofs Proofs.ValidateProofs Proofs.OpsProofs.
+From BP7 Require Import Proofs.CodecProofs Proofs.CodecUnknownCrc Proofs.ValidateProofs Proofs.OpsProofs.
 
 (* ================= sorting ================= *)
 Lemma insert_desc_head c l : (forall x, In x l -> c_num x < c_num c) -> insert_desc c l = c :: l.
@@ -143,11 +143,11 @@ Proof.
 Qed.
 
 (* ================= the invariant in the form used by the preservation proofs ================= *)
-Definition good (strict : bool) (c : canonical) : Prop := block_clean strict c = true /\ wf_canonical c = true.
+Definition good (strict : bool) (c : canonical) : Prop := block_clean strict c = true /\ wf_canonical_u c = true.
 Definition Core (b : bundle) : Prop :=
   let cs := b_canonicals b in
   strictly_desc (map c_num cs) /\ payload_last cs /\ Forall (good (strict_of b)) cs /\ singletons_once cs
-  /\ primary_validate (b_primary b) = [] /\ wf_primary (b_primary b) = true /\ age_rule (b_primary b) cs = true.
+  /\ primary_validate (b_primary b) = [] /\ wf_primary_u (b_primary b) = true /\ age_rule (b_primary b) cs = true.
 
 Ltac btrue :=
   repeat match goal with
@@ -157,11 +157,11 @@ Ltac btrue :=
 
 Lemma good_ext strict c : good strict c -> extension_valid c = true.
 Proof. intros [H _]. apply block_clean_iff in H. tauto. Qed.
-Lemma data_type1 c d : wf_canonical c = true -> c_data c = Data d -> c_type c = PAYLOAD_BLOCK.
-Proof. unfold wf_canonical. intros H E. btrue. rewrite E in *. cbn [wf_data] in *. btrue. apply N.eqb_eq. assumption. Qed.
-Lemma type1_data c : wf_canonical c = true -> c_type c = PAYLOAD_BLOCK -> exists d, c_data c = Data d.
+Lemma data_type1 c d : wf_canonical_u c = true -> c_data c = Data d -> c_type c = PAYLOAD_BLOCK.
+Proof. unfold wf_canonical_u. intros H E. btrue. rewrite E in *. cbn [wf_data] in *. btrue. apply N.eqb_eq. assumption. Qed.
+Lemma type1_data c : wf_canonical_u c = true -> c_type c = PAYLOAD_BLOCK -> exists d, c_data c = Data d.
 Proof.
-  unfold wf_canonical. intros H E. btrue. rewrite E in *. destruct (c_data c); cbn [wf_data] in *; btrue; try discriminate; eauto.
+  unfold wf_canonical_u. intros H E. btrue. rewrite E in *. destruct (c_data c); cbn [wf_data] in *; btrue; try discriminate; eauto.
 Qed.
 Lemma not_type1_no_data strict c : good strict c -> c_type c <> PAYLOAD_BLOCK -> carries_data c = false.
 Proof. intros [_ H] Hn. unfold carries_data. destruct (c_data c) eqn:E; try reflexivity. exfalso. eapply Hn, data_type1; eassumption. Qed.
@@ -206,10 +206,10 @@ Proof.
       * apply Forall_forallb. eapply Forall_impl; [|exact Hg]. intros c [H _]. exact H.
       * apply nodupb_NoDup. assumption.
       * destruct (core_payload b) as (pb & d & _ & E); [unfold Core; cbv zeta; tauto|]. congruence.
-    + unfold wf_bundle. rewrite Hwp. apply Forall_forallb. eapply Forall_impl; [|exact Hg]. intros c [_ H]. exact H.
+    + unfold wf_bundle_u. rewrite Hwp. apply Forall_forallb. eapply Forall_impl; [|exact Hg]. intros c [_ H]. exact H.
   - intros (Hnd & H0 & Hs & Hp & Hsing & Hv & Hwf).
     apply validate_nil_iff in Hv as (Hpv & Hclean & _ & _ & Hage & _).
-    unfold wf_bundle in Hwf. apply andb_true_iff in Hwf as [Hwp Hwc].
+    unfold wf_bundle_u in Hwf. apply andb_true_iff in Hwf as [Hwp Hwc].
     repeat split; try assumption.
     apply Forall_forall. intros c Hc. rewrite forallb_forall in Hclean, Hwc. split; auto.
 Qed.
@@ -225,7 +225,7 @@ Theorem start_core b : start_ok b -> Core b.
 Proof.
   intros (((cs0 & Hsort) & (c & Hlast & Hdata)) & Hv & Hwf).
   apply validate_nil_iff in Hv as (Hpv & Hclean & Hnd & Hsing & Hage & _).
-  unfold wf_bundle in Hwf. apply andb_true_iff in Hwf as [Hwp Hwc].
+  unfold wf_bundle_u in Hwf. apply andb_true_iff in Hwf as [Hwp Hwc].
   assert (Hg : Forall (good (strict_of b)) (b_canonicals b)).
   { apply Forall_forall. intros x Hx. rewrite forallb_forall in Hclean, Hwc. split; auto. }
   assert (Hs : strictly_desc (map c_num (b_canonicals b))).
@@ -266,7 +266,7 @@ Proof.
 Qed.
 
 Lemma core_transport b b' :
-  Core b -> strict_of b' = strict_of b -> primary_validate (b_primary b') = [] -> wf_primary (b_primary b') = true ->
+  Core b -> strict_of b' = strict_of b -> primary_validate (b_primary b') = [] -> wf_primary_u (b_primary b') = true ->
   p_time (b_primary b') = p_time (b_primary b) ->
   Forall2 (keeps_block (strict_of b)) (b_canonicals b) (b_canonicals b') -> Core b'.
 Proof.
@@ -294,14 +294,14 @@ Lemma good_set_data strict c nd : good strict c -> extension_valid (set_c_data c
 Proof.
   intros [H1 H2] He Hw. split.
   - apply block_clean_iff in H1 as (A & _ & B). apply block_clean_iff. destruct c as [ty nu fl cr da]; unfold set_c_data; cbn [c_flags] in *. auto.
-  - unfold wf_canonical in *. destruct c as [ty nu fl cr da]; unfold set_c_data; cbn [c_type c_num c_flags c_crc c_data] in *. btrue.
+  - unfold wf_canonical_u in *. destruct c as [ty nu fl cr da]; unfold set_c_data; cbn [c_type c_num c_flags c_crc c_data] in *. btrue.
     repeat (apply andb_true_iff; split); assumption.
 Qed.
-Lemma good_set_crc strict c x : wf_crc x = true -> good strict c -> good strict (set_c_crc c x).
+Lemma good_set_crc strict c x : wf_crc_u x = true -> good strict c -> good strict (set_c_crc c x).
 Proof.
   intros Hx [H1 H2]. split.
   - apply block_clean_iff in H1 as (A & E & B). apply block_clean_iff. destruct c as [ty nu fl cr da]; unfold set_c_crc; cbn [c_flags c_type c_num c_data] in *. auto.
-  - unfold wf_canonical in *. destruct c as [ty nu fl cr da]; unfold set_c_crc; cbn [c_type c_num c_flags c_crc c_data] in *. btrue.
+  - unfold wf_canonical_u in *. destruct c as [ty nu fl cr da]; unfold set_c_crc; cbn [c_type c_num c_flags c_crc c_data] in *. btrue.
     repeat (apply andb_true_iff; split); assumption.
 Qed.
 Lemma strict_of_same_primary b p cs : p = b_primary b -> strict_of (mkbundle p cs) = strict_of b.
@@ -317,7 +317,7 @@ Proof.
     destruct da; cbn [wf_data] in *; btrue; try assumption; try discriminate.
     + rewrite H3. cbn [andb]. apply N.eqb_eq. apply Hp. apply N.eqb_eq. assumption.
     + rewrite H3. assumption.
-  - unfold wf_canonical. destruct c as [ty nu fl cr da]; unfold set_c_num; cbn [c_type c_num c_flags c_crc c_data] in *.
+  - unfold wf_canonical_u. destruct c as [ty nu fl cr da]; unfold set_c_num; cbn [c_type c_num c_flags c_crc c_data] in *.
     apply N.ltb_lt in Hn. repeat (apply andb_true_iff; split); assumption.
 Qed.
 
@@ -422,9 +422,11 @@ Proof.
 Qed.
 
 (* ================= set_crc ================= *)
-Lemma wf_crc_of_type k : k <=? CRC_32 = true -> wf_crc (crc_of_type k) = true.
+Lemma wf_crc_u_of_type k : k <? 256 = true -> wf_crc_u (crc_of_type k) = true.
 Proof.
-  intros H. apply N.leb_le in H. unfold CRC_32 in H. assert (k = 0 \/ k = 1 \/ k = 2) as [->|[->| ->]] by lia; reflexivity.
+  intros H. unfold crc_of_type, CRC_NO, CRC_16, CRC_32.
+  destruct (k =? 0) eqn:E0; [reflexivity|]. destruct (k =? 1) eqn:E1; [reflexivity|]. destruct (k =? 2) eqn:E2; [reflexivity|].
+  cbn [wf_crc_u]. rewrite H, andb_true_r. apply N.eqb_neq in E0, E1, E2. apply N.leb_le. lia.
 Qed.
 Lemma sel_type_set_crc t c x : sel_type t (set_c_crc c x) = sel_type t c.
 Proof. destruct c; reflexivity. Qed.
@@ -435,16 +437,16 @@ Proof.
     with (sel_type PAYLOAD_BLOCK (set_c_crc c x)). rewrite sel_type_set_crc. unfold sel_type at 1.
   destruct ((c_type c =? PAYLOAD_BLOCK) && extension_valid c); [destruct c; reflexivity|exact IH].
 Qed.
-Lemma core_set_crc b k : Core b -> k <=? CRC_32 = true ->
+Lemma core_set_crc b k : Core b -> k <? 256 = true ->
   Core (set_crc b k) /\ strict_of (set_crc b k) = strict_of b /\ payload (set_crc b k) = payload b.
 Proof.
-  intros HC Hk. pose proof (wf_crc_of_type k Hk) as Hw. unfold set_crc.
+  intros HC Hk. pose proof (wf_crc_u_of_type k Hk) as Hw. unfold set_crc.
   assert (Hst : strict_of (mkbundle (set_p_crc (b_primary b) (crc_of_type k))
                                     (map (fun c => set_c_crc c (crc_of_type k)) (b_canonicals b))) = strict_of b) by reflexivity.
   split; [|split; [exact Hst|]].
   - eapply core_transport; [exact HC|exact Hst| | |reflexivity|].
     + destruct HC as (_ & _ & _ & _ & Hpv & _). exact Hpv.
-    + destruct HC as (_ & _ & _ & _ & _ & Hwp & _). unfold wf_primary in *.
+    + destruct HC as (_ & _ & _ & _ & _ & Hwp & _). unfold wf_primary_u in *.
       destruct (b_primary b) as [ver fl cr dst src rpt t seq life fo tl].
       cbn [b_primary set_p_crc p_version p_flags p_crc p_dst p_src p_rpt p_time p_seq p_lifetime p_frag_off p_total_len] in *.
       unfold has_fragmentation in *. cbn [p_flags] in *. btrue.
@@ -523,7 +525,7 @@ Proof.
 Qed.
 
 Lemma good_wf_data strict c : good strict c -> wf_data (c_type c) (c_data c) = true.
-Proof. intros [_ H]. unfold wf_canonical in H. btrue. assumption. Qed.
+Proof. intros [_ H]. unfold wf_canonical_u in H. btrue. assumption. Qed.
 Lemma core_good_find b t c : Core b -> find (sel_type t) (b_canonicals b) = Some c -> good (strict_of b) c /\ c_type c = t.
 Proof.
   intros (_ & _ & Hg & _) H. rewrite Forall_forall in Hg. split; [apply Hg; eapply in_find; eassumption|].
@@ -596,7 +598,7 @@ Proof.
   - destruct (core_add b c HC Hok) as (H1 & H2 & H3). eauto.
   - destruct (core_set_payload b d HC Hok) as (H1 & H2 & H3). eauto.
   - apply andb_true_iff in Hok as [Hok Ht]. apply N.eqb_eq in Ht.
-    assert (Hw : wf_canonical (set_c_num c 1) = true) by (apply (arg_block_good _ _ 1 Hok); [vm_compute; reflexivity|reflexivity]).
+    assert (Hw : wf_canonical_u (set_c_num c 1) = true) by (apply (arg_block_good _ _ 1 Hok); [vm_compute; reflexivity|reflexivity]).
     destruct (type1_data _ Hw) as [d Hd]; [destruct c; assumption|].
     assert (Hd' : c_data c = Data d) by (destruct c; assumption). rewrite Hd'.
     destruct (core_set_payload_block b c d HC Hok Ht Hd') as (H1 & H2 & H3). eauto.
@@ -625,7 +627,7 @@ Qed.
 
 Theorem roundtrip_of_inv b : Inv b -> let '(bs, b') := to_cbor b in from_cbor bs = Ok b'.
 Proof.
-  intros (_ & _ & _ & _ & _ & _ & Hwf). pose proof (to_cbor_roundtrip b Hwf) as H. destruct (to_cbor b) as [bs b']. tauto.
+  intros (_ & _ & _ & _ & _ & _ & Hwf). pose proof (to_cbor_roundtrip_u b Hwf) as H. destruct (to_cbor b) as [bs b']. tauto.
 Qed.
 
 Theorem invariant_all m b0 ops : start_ok b0 -> Forall (op_admissible b0) ops ->
@@ -678,10 +680,10 @@ Proof.
       apply N.eqb_eq in E1, E2. subst. discriminate.
     + unfold age_rule. cbn [p_time]. apply N.eqb_neq in Ht. rewrite Ht. reflexivity.
     + discriminate.
-  - unfold wf_bundle. cbn [b_primary b_canonicals]. apply andb_true_iff. split.
-    + unfold wf_primary. cbn [p_version p_flags p_crc p_dst p_src p_rpt p_time p_seq p_lifetime p_frag_off p_total_len].
+  - unfold wf_bundle_u. cbn [b_primary b_canonicals]. apply andb_true_iff. split.
+    + unfold wf_primary_u. cbn [p_version p_flags p_crc p_dst p_src p_rpt p_time p_seq p_lifetime p_frag_off p_total_len].
       apply N.ltb_lt in Ht64, Hq. rewrite Hs, Hd, Ht64, Hq. reflexivity.
-    + cbn [forallb]. unfold wf_canonical. cbn [c_type c_num c_flags c_crc c_data wf_data]. apply N.ltb_lt in Hl. rewrite Hl. reflexivity.
+    + cbn [forallb]. unfold wf_canonical_u. cbn [c_type c_num c_flags c_crc c_data wf_data]. apply N.ltb_lt in Hl. rewrite Hl. reflexivity.
 Qed.
 
 (* ================= readings of the invariant ================= *)
